@@ -631,8 +631,10 @@ impl Datamodel for RFsmExpressionDatamodel {
                         }
                     }
                     _ => {
+                        // W3C: terminate the <foreach> and the block that contains it.
                         self.log("Resulting value is not a supported collection.");
                         self.internal_error_execution();
+                        return false;
                     }
                 }
                 true
